@@ -4,6 +4,7 @@ import DispensoVerif.Model.Event
 import DispensoVerif.Model.AsyncReq
 import DispensoVerif.Model.Spsc
 import DispensoVerif.Model.Mpmc
+import DispensoVerif.Model.ChaseLev
 
 /-! Handlers of the dvdriver line protocol. Core Lean only. -/
 namespace Driver
@@ -18,6 +19,7 @@ inductive Sess where
   | asyncreq (s : Conc.State AsyncReq.proto)
   | spsc (K : Nat) (s : Conc.State (Spsc.proto K))
   | mpmc (K : Nat) (s : Conc.State (Mpmc.proto K))
+  | chaselev (C : Nat) (s : Conc.State (ChaseLev.proto C))
 
 structure St where
   sess : Sess := .none
@@ -77,6 +79,10 @@ def traceBegin (args : List String) : Sess × String :=
     | some [v] => (.event (Event.init v), "ok")
     | _ => (.failed, "bad-params")
   | "asyncreq" :: _ => (.asyncreq AsyncReq.init, "ok")
+  | "chaselev" :: rest =>
+    match nats rest with
+    | some [C] => (.chaselev C (ChaseLev.init C), "ok")
+    | _ => (.failed, "bad-params")
   | "mpmc" :: rest =>
     match nats rest with
     | some [K] => (.mpmc K (Mpmc.init K), "ok")
@@ -94,6 +100,10 @@ def traceLine (sess : Sess) (toks : List String) : Sess × String :=
   | .event s =>
     match Trace.acceptLine Event.binding s toks with
     | .ok s' => (.event s', "ok")
+    | .error e => (.failed, "MISMATCH " ++ e)
+  | .chaselev C s =>
+    match Trace.acceptLine (ChaseLev.binding C) s toks with
+    | .ok s' => (.chaselev C s', "ok")
     | .error e => (.failed, "MISMATCH " ++ e)
   | .mpmc K s =>
     match Trace.acceptLine (Mpmc.binding K) s toks with
